@@ -489,6 +489,74 @@ def normalise_loops(facts):
             break
 
 
+def _closure_behind(fn, operand, depth=0):
+    """closure definition a callable operand denotes: the operand is (a reference to / a moved copy of) a local built as a
+    closure aggregate - e.g. the `impl Fn` parameter of a helper that was inlined next to the closure it was given"""
+    p = operand.get('m') or operand.get('c')
+    if p is None or p['p'] or depth > 6:
+        return None
+    defs = [s for b in fn.blocks for s in b['stmts'] if s['k'] == 'assign' and s['lhs']['l'] == p['l'] and not s['lhs']['p']]
+    if len(defs) != 1:
+        return None
+    rv = defs[0]['rv']
+    if rv['k'] == 'agg' and rv.get('ak') == 'closure':
+        return rv['def']
+    if rv['k'] == 'ref' and not rv['p']['p']:
+        return _closure_behind(fn, {'c': rv['p']}, depth + 1)
+    if rv['k'] == 'use':
+        return _closure_behind(fn, rv['a'], depth + 1)
+    return None
+
+
+CLOSURE_CALLS = ('core::ops::function::Fn::call', 'core::ops::function::FnMut::call_mut', 'core::ops::function::FnOnce::call_once')
+
+
+def direct_closure_calls(facts, known):
+    """`f(x)` where f is a closure visible in the same function (after a helper taking `impl Fn` was inlined): the indirect
+    call through the Fn traits is replaced by the closure's body"""
+    n = 0
+    for _round in range(3):
+        changed = False
+        for name, fn in list(facts.fns.items()):
+            if fn.crate != 'fatfs':
+                continue
+            for bi in range(len(fn.blocks)):
+                t = fn.blocks[bi]['term']
+                if t['k'] != 'call' or t.get('callee') not in CLOSURE_CALLS or len(t.get('args') or []) != 2 or t.get('ret') is None:
+                    continue
+                cdef = _closure_behind(fn, t['args'][0])
+                cf = facts.fns.get(cdef) if cdef else None
+                if cf is None or cdef in known or cf.crate != 'fatfs' or len(cf.blocks) > MAX_BLOCKS:
+                    continue
+                tup = t['args'][1].get('m') or t['args'][1].get('c')
+                if tup is None or tup['p']:
+                    continue
+                span = t['span']
+                stmts = []
+                call_args = [copy.deepcopy(t['args'][0])]
+                for i in range(cf.argc - 1):
+                    fn.locals.append({'ty': cf.locals[2 + i]['ty'], 'name': None})
+                    li = len(fn.locals) - 1
+                    stmts.append({'k': 'assign', 'lhs': {'l': li, 'p': []}, 'span': span,
+                                  'rv': {'k': 'use', 'a': {'m': {'l': tup['l'], 'p': [{'f': i, 'n': str(i)}]}}}})
+                    call_args.append({'m': {'l': li, 'p': []}})
+                fn.blocks[bi]['stmts'].extend(stmts)
+                nt = dict(t)
+                nt.update({'callee': cdef, 'callee_crate': 'fatfs', 'args': call_args, 'synthetic': True, 'func': None, 'gargs': []})
+                fn.blocks[bi]['term'] = nt
+                fn._succ = fn._pred = fn._dom = fn._pdom = fn._reach = None
+                try:
+                    _attach_and_inline_closure(facts, fn, bi, bi, cdef, cf)
+                    changed = True
+                    n += 1
+                except Exception:
+                    fn.blocks[bi]['term'] = t
+                    del fn.blocks[bi]['stmts'][len(fn.blocks[bi]['stmts']) - len(stmts):]
+        if not changed:
+            break
+    facts.direct_closure_calls = n
+
+
 # ---------------------------------------------------------------------------------------------------------------
 # Materialised conditions: `let ok = a && b; if !ok { .. }`, `if matches!(..)` - the compiler stores `true` / `false` /
 # the last comparison into a bool local in different blocks, joins, and switches on the local. Every path-sensitive
